@@ -1096,7 +1096,9 @@ def oracle(case, impl):
                 # the order among INDEPENDENT nodes comes from iterating Python sets (starting nodes of a DAG layer):
                 # it depends on the interpreter's hash seed, not on the graph — compared as multisets there
                 calls_o, calls_c = sorted(calls_o), sorted(calls_c)
-            if case["backend"] == "newproc":
+            threads = "spec" in case["root"] and any(c.get("exec") == "instr" for _p, c in _paths(case["root"]["spec"]))
+            if case["backend"] == "newproc" or threads:
+                # (real thread executors: which of two independent branches registers first is wall-clock time)
                 so = dict(so, state=[x[:5] + [sorted(x[5])] for x in so.get("state", [])])
                 sc = dict(sc, state=[x[:5] + [sorted(x[5])] for x in sc.get("state", [])])
             if calls_o != calls_c:
